@@ -82,6 +82,22 @@ def check_page(np, sparse, layout, ET, ah, blocks, kind, minconf):
         xml = pl.to_altoxml_string(min_line_confidence=minconf)
     except Exception as e:
         return [('export-never-fails', 'to_altoxml_string raised %r' % (e,))]
+    # which lines are dropped depends on the posteriors and the requested confidence only - not on a confidence value the line
+    # happens to carry from an earlier stage (the engine's differently defined line confidence, a PAGE `conf` attribute, the 0 an
+    # earlier export without logits wrote): the same page with such values on its lines exports the same lines
+    if minconf > 0 and kind in ('peaky', 'diffuse'):
+        for stale in (0.0, 1.0):
+            pl2 = build_page(np, sparse, layout, blocks, kind)
+            for l2 in pl2.lines_iterator():
+                l2.transcription_confidence = stale
+            try:
+                xml2 = pl2.to_altoxml_string(min_line_confidence=minconf)
+            except Exception as e:
+                return [('export-never-fails', 'to_altoxml_string raised %r on lines with a stored confidence' % (e,))]
+            ids = lambda x_: [el.get('ID') for el in ET.fromstring(x_.encode('utf8')).iter('{*}TextLine')]
+            if ids(xml2) != ids(xml):
+                bad.append(('only-unconfident-lines-dropped', 'with a stored confidence of %r on every line the export (min confidence %r) keeps lines %r, without it %r'
+                            % (stale, minconf, ids(xml2), ids(xml))))
     root = ET.fromstring(xml.encode('utf8'))
     ns = '{*}'
     tbs = list(root.iter(ns + 'TextBlock'))
